@@ -288,18 +288,18 @@ func (w *TimingWheel) moveTask(task baseEntry) {
 	}
 
 	pos, circle := w.getPositionAndCircle(task.delay)
-	if pos > timer.pos {
-		timer.item.circle = circle
-		timer.item.diff = pos - timer.pos
-	} else if circle > 0 {
-		circle--
-		timer.item.circle = circle
-		timer.item.diff = w.numSlots + pos - timer.pos
+	steps := int(task.delay / w.interval)
+	// 距离任务所在槽位下一次被扫描还需的滴答数（1..numSlots）
+	ahead := (timer.pos-w.tickedPos+w.numSlots-1)%w.numSlots + 1
+	if steps >= ahead {
+		timer.item.circle = (steps - ahead) / w.numSlots
+		timer.item.diff = (steps - ahead) % w.numSlots
 	} else {
 		timer.item.removed = true
 		newItem := &timingEntry{
 			baseEntry: task,
 			value:     timer.item.value,
+			circle:    circle,
 		}
 		w.slots[pos].PushBack(newItem)
 		w.setTimerPosition(pos, newItem)
